@@ -244,4 +244,10 @@ theorem pcallRecover_contract {s : St} (hw : WF s) (nargs : Nat) (hna : nargs + 
     | error err => rw [hs, bind_err] at he; cases he; exact regSetTop_err hcap (by omega) hs
     | ok r => rw [hs, bind_ok] at he; cases he
 
+/-- every exit path of `PCall`'s deferred function is the recovery `pcallRecover` on the registry of that moment:
+    the frame that was current when the path was taken (`atExit.base`) plays no role. -/
+theorem pcallDeferred_eq_recover (s : St) (nargs : Int) (path : RecoverPath) (atExit : St) :
+    pcallDeferred s nargs path atExit = pcallRecover s nargs atExit.reg := by
+  cases path <;> rfl
+
 end GLua.ApiStack
